@@ -576,10 +576,19 @@ def make_project(d, rng, kind, full=False):
     elif kind == "empty_file":
         files["a.py"] = []
         files["b.py"] = fn_complexity("f", 7, "mixed")
+    elif kind == "with_broken_file":
+        # two files no analysis can parse next to two ordinary ones: they must be named as errors and must not hide the others
+        files["good1.py"] = fn_complexity("f", 6, "critical") + fn_complexity("g", 11, "mixed")
+        files["good2.py"] = class_lcom("A", 3) + fn_complexity("h", 3)
+        files["broken_syntax.py"] = ["def broken(:", "    return ((", ""]
+        files["broken_bytes.py"] = ["\x00\x01def \x02"]
+    elif kind == "only_broken":
+        # nothing can be parsed: the complexity analysis fails as a whole, the others report an empty result; a report is still written
+        files["broken_syntax.py"] = ["def broken(:", "    return ((", ""]
     for n, ls in files.items():
         with open(os.path.join(d, n), "w") as f:
             f.write("\n".join(ls) + ("\n" if ls else ""))
-    return {"kind": kind, "files": sorted(files)}
+    return {"kind": kind, "files": sorted(files), "broken": sorted(n for n in files if n.startswith("broken_"))}
 
 
 def latest(d, ext):
